@@ -215,6 +215,11 @@ def _ip_tcp(payload, rng, sport, dport, seq, flags=0x18, v6=False):
     return ip + tcp + payload
 
 
+# first bytes of hardware addresses: any whose low nibble is < 5 (the raw-IP parser, which is tried first, then rejects the
+# frame for its header length; the pinned tree mis-reads others, that is not what is being tested)
+MAC_FIRST = [h << 4 | l_ for h in range(16) for l_ in range(5)]
+
+
 def write_pcapng(messages, rng, noise=True, ether=None, mixed=None, pad=0):
     """pcapng capture of TPM traffic: one TCP packet per message, raw-IP or Ethernet (loopback MACs)
     framing, runt packets (< 10 payload bytes, e.g. mssim platform commands) interleaved, optional
@@ -270,7 +275,8 @@ def write_pcapng(messages, rng, noise=True, ether=None, mixed=None, pad=0):
         eth = ether if iface == 0 else not ether
         pkt = mk(v6 and eth)
         if eth:
-            pkt = b"\x00" * 12 + (b"\x86\xdd" if v6 else b"\x08\x00") + pkt
+            mac = lambda: bytes([rng.choice(MAC_FIRST)]) + bytes(rng.randrange(256) for _ in range(5)) if noise and rng.random() < 0.5 else b"\x00" * 6
+            pkt = mac() + mac() + (b"\x86\xdd" if v6 else b"\x08\x00") + pkt
         ts += rng.randrange(1, 5000)
         out += _block(6, struct.pack("<IIIII", iface, ts >> 32, ts & 0xFFFFFFFF, len(pkt), len(pkt)) + pkt)
 
